@@ -464,6 +464,9 @@ def wire_oracle(w):
     msd = {}                      # MAX_STREAM_DATA delivered, per stream
     ms = [H[4], H[5]]             # bidi, uni
     highest = collections.defaultdict(int)
+    # after a REJECTED 0-RTT the peer has processed none of the 0-RTT packets: they are judged against the
+    # remembered limits in a ledger of their own, the 1-RTT packets against the handshake limits from scratch
+    highest_early = collections.defaultdict(int) if w.get("rejected") else highest
     opened = set()                # client-initiated streams that carried a STREAM frame
     covered = collections.defaultdict(list)
     deliv_to_client = [(pos, idx) for pos, (t, idx, src, dst) in enumerate(w["delivered"]) if dst == w["client_addr"]]
@@ -520,7 +523,7 @@ def wire_oracle(w):
                     covered[sid].append((off, end))
                 elif f.name == "RESET_STREAM":
                     end = f.fields["final_size"]
-                    if end < highest[sid]:
+                    if end < (highest_early if early else highest)[sid]:
                         bad.append(("RESET_STREAM final size %d below data already sent (%d) on stream %d" % (end, highest[sid], sid),
                                     dict(sig0, rule="final_size")))
                 else:
@@ -529,9 +532,10 @@ def wire_oracle(w):
                 if end > lim:
                     bad.append(("%s on stream %d ends at %d, above the stream limit %d in force" % (f.name, sid, end, lim),
                                 dict(sig0, rule="stream_data_limit")))
-                if end > highest[sid]:
-                    highest[sid] = end
-                total = sum(highest.values())
+                ledger = highest_early if early else highest
+                if end > ledger[sid]:
+                    ledger[sid] = end
+                total = sum(ledger.values())
                 cl = Rm[0] if early else max_data
                 if total > cl:
                     bad.append(("sum of highest offsets %d exceeds the connection limit %d in force (stream %d, %s)" % (total, cl, sid, f.name),
